@@ -85,7 +85,15 @@ pub fn render(spec: &Spec, mode: u16) -> Result<Vec<u32>, Failure> {
     let mut plan = Plan::plain();
     plan.compress = 0;
     plan.zlevel = 1;
-    let enc = encode(&s, &plan);
+    let mut enc = encode(&s, &plan);
+    // Header flags: bit 0 says "the layer opacity field is valid", bit 1 (newer format revisions) "groups have a
+    // blend mode and opacity of their own". When every layer opacity in the file is 255 and there are no groups, a
+    // reader that ignores the flags and one that honours them must produce the same image, so such probe sprites
+    // carry all four combinations.
+    if spec.lop == 255 {
+        let hf = [1u32, 0, 3, 2][((spec.mode as u64 + spec.cop as u64 + spec.back.len() as u64 / 7 + spec.back[0] as u64) % 4) as usize];
+        enc.bytes[14..18].copy_from_slice(&hf.to_le_bytes());
+    }
     let f = AsepriteFile::read(&enc.bytes[..]).map_err(|e| Failure::new("load-error", format!("probe sprite failed to load: {}", e)))?;
     let img = f.frame(0).image();
     Ok(img.as_raw().chunks_exact(4).map(|c| pack(c[0], c[1], c[2], c[3])).collect())
